@@ -23,7 +23,8 @@ var rec = vh.NewRecorder("C06", "upload-faults",
 		"TCP close inside the request head, close after n bytes, RST after n bytes, no fault} x n in {0,1,100,4000,4095,4096,4097,5000,end} x "+
 		"whether the failed connection keeps draining, against utils.NewResponseForwarder (in-process, -race) writing a response of size "+
 		"{0,1,100,3800-4200,4095,4096,4097,5000,64KiB} in generated segments with pauses; the byte-level TCP fault server records every "+
-		"attempt, optionally with 1-3 healthy uploads of other requests running at the same time (every upload must carry the response of the request id it is posted under); non-trivial = the first attempt is faulted; distinct = SHA-256 of the canonical case")
+		"attempt, optionally with 1-3 healthy uploads of other requests running at the same time (every upload must carry the response of the request id it is posted under); non-trivial = the first attempt is faulted; distinct = SHA-256 of the canonical case"+
+		" Later additions: bodies sized so that the serialised response ends within a few bytes of offset 4096 (framing overhead measured by one healthy upload per status); 0-3 healthy uploads of other requests running alongside, each of which must carry the response of its own request id.")
 
 func TestMain(m *testing.M) { vh.Main(m, rec) }
 
